@@ -136,9 +136,10 @@ def has_assertion(items):
 
 
 class Translator:
-    def __init__(self, flags=0, at_start=True, group_subst=None):
+    def __init__(self, flags=0, at_start=True, group_subst=None, over_approx=False):
         self.flags = flags
         self.at_start = at_start
+        self.over_approx = over_approx      # drop look-behinds: a superset of the language (sound on the left of a subset claim)
         self.group_subst = group_subst or {}
 
     def tr(self, items, rest, first=True):
@@ -206,6 +207,8 @@ class Translator:
                 if first and self.at_start:
                     # nothing precedes position 0: (?<!..) holds, (?<=..) fails
                     return tail() if op is sre_c.ASSERT_NOT else z3.Empty(RE)
+                if self.over_approx:
+                    return tail()
                 raise Unsupported('look-behind not at the start')
             look = self.tr(body, full(), False)
             t = tail()
@@ -290,7 +293,7 @@ def groupref_ids(items):
     return out
 
 
-def language(pattern, flags=0, mode='match', at_start=True):
+def language(pattern, flags=0, mode='match', at_start=True, over_approx=False):
     """RegLan of strings s such that re.compile(pattern, flags).<mode>(s) succeeds
     (mode 'match' | 'fullmatch')."""
     parsed = sre_parse.parse(pattern, flags)
@@ -298,14 +301,14 @@ def language(pattern, flags=0, mode='match', at_start=True):
     rest = full() if mode == 'match' else eps()
     refs = groupref_ids(parsed)
     if not refs:
-        return Translator(pflags, at_start).tr(list(parsed), rest)
+        return Translator(pflags, at_start, over_approx=over_approx).tr(list(parsed), rest)
     if len(refs) > 1:
         raise Unsupported('several back-referenced groups')
     g = refs.pop()
     chars = finite_group_chars(parsed, g)
     if chars is None:
         raise Unsupported('back-reference to a group that is not a finite character class')
-    return union(Translator(pflags, at_start, {g: c}).tr(list(parsed), rest) for c in chars)
+    return union(Translator(pflags, at_start, {g: c}, over_approx=over_approx).tr(list(parsed), rest) for c in chars)
 
 
 def group_width(pattern, g, flags=0):
